@@ -62,16 +62,6 @@ Proof.
 Qed.
 
 (* ---- frame: items that do not mention d --------------------------------------------------------- *)
-Fixpoint nm (d : nat) (it : item) : bool :=
-  match it with
-  | IOp _ uses => negb (uses_val d uses)
-  | ICast a b _ _ => negb (a =? d)%nat && negb (b =? d)%nat
-  | IAlloc v => negb (v =? d)%nat
-  | ICopy a b => negb (a =? d)%nat && negb (b =? d)%nat
-  | ILoop _ body => (fix go (l : list item) : bool :=
-                       match l with [] => true | x :: r => nm d x && go r end) body
-  end.
-
 Lemma nm_loop d lid body : nm d (ILoop lid body) = forallb (nm d) body.
 Proof. cbn [nm]. induction body as [|x r IH]; [reflexivity|]. cbn [forallb]. rewrite <- IH. reflexivity. Qed.
 
